@@ -95,6 +95,41 @@ def putItem (w : WState) : WItem → WState
 def writeItems (cols : List Bytes) (items : List WItem) : Bytes :=
   (items.foldl putItem (startTable cols)).text
 
+/-! ## writer with `setSeparator(sep)` / `setDecimal(dec)` -/
+
+/-- `if (_decimal != '.' && item.is(Var::NUMBER)) value.replaceme('.', _decimal)` -/
+def localize (dec : UInt8) : Cell → Cell
+  | .num lex => .num (if dec != 46 then lex.map (fun c => if c = 46 then dec else c) else lex)
+  | c => c
+
+def rowTextG (sep dec : UInt8) (row : List Cell) : Bytes := writeRow sep 34 (row.map (localize dec))
+
+def startTableG (sep : UInt8) (cols : List Bytes) : WState :=
+  { ncols := cols.length, text := joinSep sep (cols.map colName), row := [], dataStarted := false }
+
+def putCellG (sep dec : UInt8) (w : WState) (x : Cell) : WState :=
+  let rowFull := x == .str [10] && w.row.length > 0
+  let row := if rowFull then w.row else w.row ++ [x]
+  if row.length == w.ncols || rowFull then
+    let pre : Bytes := if w.dataStarted then [] else [10]
+    { w with text := w.text ++ pre ++ rowTextG sep dec row ++ [10], row := [], dataStarted := true }
+  else { w with row := row }
+
+def putArrayG (sep dec : UInt8) (w : WState) (cs : List Cell) : WState :=
+  if cs.length == w.ncols then
+    let pre : Bytes := if w.dataStarted then [] else [10]
+    { w with text := w.text ++ pre ++ rowTextG sep dec cs ++ [10], row := [], dataStarted := true }
+  else { w with row := cs }
+
+def putItemG (sep dec : UInt8) (w : WState) : WItem → WState
+  | .cell c => putCellG sep dec w c
+  | .arr cs => putArrayG sep dec w cs
+
+/-- the file written after `setSeparator(sep)`, `setDecimal(dec)`, `columns(cols)` and `<<` of every item
+    (`sep = ','`, `dec = '.'` are the defaults: `writeItemsG 44 46 = writeItems`) -/
+def writeItemsG (sep dec : UInt8) (cols : List Bytes) (items : List WItem) : Bytes :=
+  (items.foldl (putItemG sep dec) (startTableG sep cols)).text
+
 /-! ## reader -/
 
 /-- a file being read: bytes not yet consumed and the `feof` flag -/
@@ -264,9 +299,11 @@ inductive RCell where
   | num (d : Dec)
 deriving Repr, DecidableEq
 
-/-- type inference of `nextRow` without `readAs` -/
+/-- type inference of `nextRow` without `readAs`:
+    `if (myisnumber(v, decimal) || (decimal != '.' && myisnumber(v, '.')))` — a number spelled with `.` is a number
+    also when the reader guessed the decimal comma from a `;` in the header (the repaired code) -/
 def inferCell (dec : UInt8) (v : Bytes) : RCell :=
-  if isNumber dec v then
+  if isNumber dec v || (dec != 46 && isNumber 46 v) then
     let v' := if dec != 46 then v.map (fun c => if c = dec then 46 else c) else v
     .num (atofDec v')
   else .str v
